@@ -33,6 +33,8 @@ class Program:
                 continue
             if b.derived and not include_derived:
                 continue
+            if b.helper:
+                continue   # analysed inlined into its callers (twlint/inline.py)
             yield b
 
     def closures_of(self, key):
@@ -125,7 +127,14 @@ class Program:
                 return ("call", name, args)
             return ("callm", name, args, t[3])
         if tag == "bin":
-            return ("bin", t[1], S(t[2]), S(t[3]))
+            op, a, b = t[1], S(t[2]), S(t[3])
+            if op == "Gt":
+                op, a, b = "Lt", b, a
+            elif op == "Ge":
+                op, a, b = "Le", b, a
+            elif op in ("Eq", "Ne"):
+                a, b = sorted([a, b], key=repr)
+            return ("bin", op, a, b)
         if tag == "un":
             return ("un", t[1], S(t[2]))
         if tag == "cast":
